@@ -5,6 +5,8 @@ from vlib import common
 def key_fn(case, obs, verdict):
     f = case.split(" ")
     why = verdict.split(":", 1)[1] if ":" in verdict else verdict
+    if f[0] == "fact":
+        return "fact-" + key_fn(" ".join(f[3:]), obs, verdict.split(" (product ")[0])
     if f[0] == "conc":
         if f[3] == "meet":
             f = f[:3] + f[4:]
